@@ -113,6 +113,15 @@ pub struct QCase {
     /// fault: the service's monotonic clock has millisecond granularity (two reads may be equal)
     #[serde(default)]
     pub coarse_clock: bool,
+    /// hostile peers beside everybody else: each pipelines 40 Start calls into a connection whose
+    /// replies it never reads (window of a few bytes), so the worker serving it blocks in write()
+    #[serde(default)]
+    pub stalled: usize,
+    /// clock-jump history (with the coarse clock): `old` raw clients start, the clock jumps 13 h (past
+    /// the 12 h lifetime of a client id), then `new` raw clients start and walk the canonical
+    /// sequence with their steps interleaved in the given order
+    #[serde(default)]
+    pub jump: Option<(usize, usize, Vec<u8>)>,
     pub sched: SchedCfg,
 }
 
@@ -138,6 +147,10 @@ pub struct QObs {
     pub log_hash: u64,
     pub end_time: u64,
     pub finished: bool,
+    /// clock-jump history: what went wrong for a client that started after the jump
+    pub jump_failures: Vec<String>,
+    /// canonical clients that had not finished while the hostile peers were still stalled
+    pub unfinished_while_stalled: usize,
 }
 
 fn set_path(v: &mut Value, path: &[String], new: Option<Value>) {
@@ -373,6 +386,85 @@ pub fn run_q(case: &QCase) -> (SimEnd, crate::sched::SimStats, QObs) {
             o.canon_results = vec![None; c.canonical];
             o.dev = vec![DevObs::default(); c.deviants.len()];
         }
+        // hostile peers that never read
+        let mut stalled_ids = Vec::new();
+        for _ in 0..c.stalled {
+            let id = net.connect(ConnOpts { s2c_cap: 48, ..Default::default() });
+            let mut b = serde_json::to_vec(&json!({"method": format!("{}.Start", IFACE)})).unwrap();
+            b.push(0);
+            let mut all = Vec::new();
+            for _ in 0..40 {
+                all.extend_from_slice(&b);
+            }
+            net.client_send(id, &all);
+            stalled_ids.push(id);
+        }
+        // clock-jump history
+        if let Some((old, new, order)) = &c.jump {
+            struct Walker {
+                raw: Raw,
+                client_id: String,
+                prev: Value,
+                strings: Vec<String>,
+                next: usize,
+            }
+            let mut step = |w: &mut Walker| -> Result<(), String> {
+                let req = canonical_request(w.next, &w.client_id, &w.prev, &w.strings);
+                let (replies, ended) = w.raw.call(&req, w.next == 11);
+                let st = w.next;
+                w.next += 1;
+                if st == 11 {
+                    return if replies.is_empty() { Ok(()) } else { Err(format!("Test11 (oneway) answered: {}", replies[0])) };
+                }
+                let last = replies.last().cloned().unwrap_or(Value::Null);
+                if last.get("error").is_some() || replies.is_empty() || ended {
+                    return Err(format!("canonical step {} of a client that started after the clock jump failed: {}", STEPS[st], last));
+                }
+                if st == 0 {
+                    w.client_id = last["parameters"]["client_id"].as_str().unwrap_or("").to_string();
+                }
+                if st == 10 {
+                    w.strings = replies.iter().filter_map(|r| r["parameters"]["string"].as_str().map(String::from)).collect();
+                }
+                w.prev = last.get("parameters").cloned().unwrap_or(Value::Null);
+                Ok(())
+            };
+            let mk = |net: &NetRef, ctl: &CtlRef| Walker {
+                raw: Raw { net: net.clone(), ctl: ctl.clone(), id: net.connect(ConnOpts::default()), consumed: 0, interleave: false },
+                client_id: String::new(),
+                prev: Value::Null,
+                strings: vec![],
+                next: 0,
+            };
+            let mut olds: Vec<Walker> = (0..*old).map(|_| mk(&net, &ctl)).collect();
+            for w in olds.iter_mut() {
+                let _ = step(w);
+                if w.next < 3 {
+                    let _ = step(w);
+                }
+            }
+            // 13 hours later
+            wait_quiescent(&ctl);
+            let now = net.lock().now;
+            net.set_clock(now + 13 * 3600 * 1000, false);
+            let mut news: Vec<Walker> = (0..*new).map(|_| mk(&net, &ctl)).collect();
+            let mut fails = Vec::new();
+            for k in order {
+                let i = *k as usize % news.len().max(1);
+                if let Some(w) = news.get_mut(i) {
+                    if w.next < 13 {
+                        if let Err(e) = step(w) {
+                            fails.push(e);
+                            w.next = 13;
+                        }
+                    }
+                }
+            }
+            for w in olds.iter().chain(news.iter()) {
+                net.client_half_close(w.raw.id);
+            }
+            out2.lock().unwrap().jump_failures = fails;
+        }
         // real canonical clients
         let mut handles = Vec::new();
         for k in 0..c.canonical {
@@ -468,7 +560,16 @@ pub fn run_q(case: &QCase) -> (SimEnd, crate::sched::SimStats, QObs) {
             }
             net.client_half_close(id);
         }
-        // let everybody finish, then let the idle timeout end the server
+        // let everybody finish (the hostile peers are still stalled while the others run), then the
+        // hostile peers go away, then the idle timeout ends the server
+        wait_quiescent(&ctl);
+        {
+            let stalled_now = out2.lock().unwrap().canon_results.iter().filter(|r| r.is_none()).count();
+            out2.lock().unwrap().unfinished_while_stalled = stalled_now;
+        }
+        for id in &stalled_ids {
+            net.client_close(*id);
+        }
         wait_quiescent(&ctl);
         for _ in 0..40 {
             wait_quiescent(&ctl);
@@ -557,6 +658,19 @@ pub fn judge_q(case: &QCase, end: &SimEnd, o: &QObs) -> (Vec<Violation>, bool) {
             )),
         }
     }
+    if case.stalled > 0 && o.unfinished_while_stalled > 0 {
+        v.push(viol(
+            "C19",
+            "canonical-client-blocked-by-stalled-peer",
+            format!(
+                "{} of {} canonical clients could not finish while {} peer(s) that never read their replies were connected",
+                o.unfinished_while_stalled, case.canonical, case.stalled
+            ),
+        ));
+    }
+    for f in &o.jump_failures {
+        v.push(viol("C19", "canonical-client-failed", f.clone()));
+    }
     let mut ids = o.client_ids.clone();
     ids.sort();
     let n = ids.len();
@@ -640,10 +754,12 @@ pub fn eval_q(case: &QCase) -> RunResult {
     RunResult {
         violations,
         sig: sig.0,
-        nontrivial: case.canonical + case.deviants.len() >= 1,
+        nontrivial: case.canonical + case.deviants.len() + case.stalled + case.jump.is_some() as usize >= 1,
         faults: vec![
             ("deviating_request_sent", o.dev.iter().filter(|d| d.reached).count() as u64),
             ("coarse_monotonic_clock", case.coarse_clock as u64),
+            ("clock_jump_13h", case.jump.is_some() as u64),
+            ("peer_never_reads", case.stalled as u64),
         ],
         probes: vec![
             ("deviation_answered_with_error", errors),
@@ -822,7 +938,7 @@ pub fn deviation_space(canon_params: &[Value]) -> Vec<Deviation> {
 
 pub fn c19_plan(tier: Tier) -> Plan {
     // one raw canonical walk against the real service yields the canonical parameters of every step
-    let probe = QCase { canonical: 0, deviants: vec![], interleave: false, coarse_clock: false, sched: SchedCfg::uniform(1) };
+    let probe = QCase { canonical: 0, deviants: vec![], interleave: false, coarse_clock: false, stalled: 0, jump: None, sched: SchedCfg::uniform(1) };
     let (_, _, o) = run_q(&probe);
     let canon = o.canon_params.clone();
     let devs = deviation_space(&canon);
@@ -842,6 +958,8 @@ pub fn c19_plan(tier: Tier) -> Plan {
                     deviants: vec![d],
                     interleave: idx % 2 == 1,
                     coarse_clock: false,
+                    stalled: 0,
+                    jump: None,
                     sched: SchedCfg::random(&mut rng, 1),
                 })
             }),
@@ -856,7 +974,7 @@ pub fn c19_plan(tier: Tier) -> Plan {
             gen: Box::new(move |idx, seed| {
                 let mut rng = Rng::new(seed);
                 let k = if idx < 16 { idx as usize + 1 } else if rng.chance(1, 6) { rng.range(9, 16) as usize } else { rng.range(2, 8) as usize };
-                Case::Q(QCase { canonical: k, deviants: vec![], interleave: false, coarse_clock: false, sched: SchedCfg::random(&mut rng, 1) })
+                Case::Q(QCase { canonical: k, deviants: vec![], interleave: false, coarse_clock: false, stalled: 0, jump: None, sched: SchedCfg::random(&mut rng, 1) })
             }),
         });
     }
@@ -872,7 +990,7 @@ pub fn c19_plan(tier: Tier) -> Plan {
                 let k = rng.range(1, 6) as usize;
                 let nd = rng.range(1, 3) as usize;
                 let deviants = (0..nd).map(|_| rng.pick(&devs).clone()).collect();
-                Case::Q(QCase { canonical: k, deviants, interleave: rng.chance(2, 3), coarse_clock: false, sched: SchedCfg::random(&mut rng, 1) })
+                Case::Q(QCase { canonical: k, deviants, interleave: rng.chance(2, 3), coarse_clock: false, stalled: 0, jump: None, sched: SchedCfg::random(&mut rng, 1) })
             }),
         });
     }
@@ -892,6 +1010,8 @@ pub fn c19_plan(tier: Tier) -> Plan {
                     deviants: vec![d],
                     interleave: rng.chance(1, 2),
                     coarse_clock: false,
+                    stalled: 0,
+                    jump: None,
                     sched: SchedCfg::random(&mut rng, 1),
                 })
             }),
@@ -907,7 +1027,59 @@ pub fn c19_plan(tier: Tier) -> Plan {
             gen: Box::new(move |_idx, seed| {
                 let mut rng = Rng::new(seed);
                 let k = rng.range(2, 6) as usize;
-                Case::Q(QCase { canonical: k, deviants: vec![], interleave: false, coarse_clock: true, sched: SchedCfg::random(&mut rng, 1) })
+                Case::Q(QCase { canonical: k, deviants: vec![], interleave: false, coarse_clock: true, stalled: 0, jump: None, sched: SchedCfg::random(&mut rng, 1) })
+            }),
+        });
+    }
+    {
+        // hostile peers that never read, beside canonical clients
+        let n = if tier == Tier::Quick { 300 } else { 10_000 };
+        spaces.push(Space {
+            name: "Q.canonical.stalled-peer",
+            size: n,
+            exhaustive: false,
+            gen: Box::new(move |_idx, seed| {
+                let mut rng = Rng::new(seed);
+                Case::Q(QCase {
+                    canonical: rng.range(1, 4) as usize,
+                    deviants: vec![],
+                    interleave: false,
+                    coarse_clock: false,
+                    stalled: rng.range(1, 2) as usize,
+                    jump: None,
+                    sched: SchedCfg::random(&mut rng, 1),
+                })
+            }),
+        });
+    }
+    {
+        // coarse clock that also jumps past the lifetime of a client id
+        let n = if tier == Tier::Quick { 300 } else { 10_000 };
+        spaces.push(Space {
+            name: "Q.clock.jump",
+            size: n,
+            exhaustive: false,
+            gen: Box::new(move |_idx, seed| {
+                let mut rng = Rng::new(seed);
+                let old = rng.range(1, 3) as usize;
+                let new = rng.range(2, 4) as usize;
+                // mostly Starts and first steps right after the jump, then the rest
+                let mut order: Vec<u8> = (0..rng.range(4, 10)).map(|_| rng.below(new as u64) as u8).collect();
+                for r in 0..13u8 {
+                    for k in 0..new as u8 {
+                        let _ = r;
+                        order.push(k);
+                    }
+                }
+                Case::Q(QCase {
+                    canonical: 0,
+                    deviants: vec![],
+                    interleave: false,
+                    coarse_clock: true,
+                    stalled: 0,
+                    jump: Some((old, new, order)),
+                    sched: SchedCfg::random(&mut rng, 1),
+                })
             }),
         });
     }
